@@ -531,6 +531,426 @@ def _eval_trim(args):
 
 
 # ================================================================================================
+# gating mini-language (Model 2): trees, real builder, generator, oracle
+# ================================================================================================
+def nullable(t):
+    k = t[0]
+    if k == "lit":
+        return False
+    if k == "act":
+        return nullable(t[3])
+    if k == "seq":
+        return nullable(t[1]) and nullable(t[2])
+    if k == "alt":
+        return nullable(t[1]) or nullable(t[2])
+    if k == "or":
+        return any(nullable(x) for x in t[1:])
+    if k == "each":
+        return all(nullable(x) for x in t[1:])
+    if k == "many":
+        return nullable(t[1])
+    return True  # skipto, star, opt, fb, not
+
+
+def strip_act(t):
+    while t[0] == "act":
+        t = t[3]
+    return t
+
+
+def tree_sexp(t):
+    k = t[0]
+    if k == "lit":
+        return [Sym("lit"), t[1]]
+    if k == "act":
+        return [Sym("act"), [[a["id"], Sym(a["kind"])] for a in t[1]], bool(t[2]), tree_sexp(t[3])]
+    if k in ("seq", "alt"):
+        return [Sym(k), tree_sexp(t[1]), tree_sexp(t[2])]
+    if k in ("or", "each"):
+        return [Sym(k)] + [tree_sexp(x) for x in t[1:]]
+    if k == "skipto":
+        return [Sym(k), tree_sexp(t[1]), Sym("none") if t[2] is None else tree_sexp(t[2]), bool(t[3])]
+    if k in ("many", "star"):
+        return [Sym(k), tree_sexp(t[1]), Sym("none") if t[2] is None else tree_sexp(t[2])]
+    return [Sym(k), tree_sexp(t[1])]  # opt fb not
+
+
+def firable(t, da):
+    """ids that may fire (PP.ActionGate.firable): the statement of fired_ids_firable"""
+    k = t[0]
+    if k == "lit":
+        return set()
+    if k == "act":
+        own = {a["id"] for a in t[1]} if (da or t[2]) else set()
+        return own | firable(t[3], da)
+    if k in ("seq", "alt"):
+        return firable(t[1], da) | firable(t[2], da)
+    if k in ("or", "each"):
+        out = set()
+        for x in t[1:]:
+            out |= firable(x, False) | firable(x, da)
+        return out
+    if k == "skipto":
+        out = firable(t[1], False)
+        if t[2] is not None:
+            out |= firable(t[2], False)
+        if t[3]:
+            out |= firable(t[1], da)
+        return out
+    if k in ("many", "star"):
+        out = firable(t[1], da)
+        if t[2] is not None:
+            out |= firable(t[2], False)
+        return out
+    return firable(t[1], da)
+
+
+ACTION_SHAPES = ["def3", "def2", "lambda3", "lambda2", "bound3", "bound2", "partial2", "callobj3", "varargs",
+                 "def1", "lambda1", "def0", "classmethod2", "static3"]
+
+
+def make_logger(pp, a, log):
+    """a real callable of shape a['shape'] that logs (id, loc or -1) and then behaves as a['kind']"""
+    aid, kind, shape = a["id"], a["kind"], a["shape"]
+
+    def core(s, l, have_s, have_l):
+        log.append((aid, l if have_l else -1))
+        if kind == "keep":
+            return None
+        if kind == "fail":
+            raise pp.ParseException(s if have_s else "", l if have_l else 0, "action-fail")
+        if kind == "fatal":
+            raise pp.ParseFatalException(s if have_s else "", l if have_l else 0, "action-fatal")
+        raise ValueError("action-err")
+
+    if shape == "def3":
+        def f(s, l, t):
+            return core(s, l, True, True)
+        return f
+    if shape == "def2":
+        def f(l, t):
+            return core("", l, False, True)
+        return f
+    if shape == "def1":
+        def f(t):
+            return core("", 0, False, False)
+        return f
+    if shape == "def0":
+        def f():
+            return core("", 0, False, False)
+        return f
+    if shape == "lambda3":
+        return lambda s, l, t: core(s, l, True, True)
+    if shape == "lambda2":
+        return lambda l, t: core("", l, False, True)
+    if shape == "lambda1":
+        return lambda t: core("", 0, False, False)
+    if shape == "varargs":
+        return lambda *a: core(a[0], a[1], True, True)
+
+    class K:
+        def m3(self, s, l, t):
+            return core(s, l, True, True)
+
+        def m2(self, l, t):
+            return core("", l, False, True)
+
+        def __call__(self, s, l, t):
+            return core(s, l, True, True)
+
+        @classmethod
+        def c2(cls, l, t):
+            return core("", l, False, True)
+
+        @staticmethod
+        def s3(s, l, t):
+            return core(s, l, True, True)
+
+    if shape == "bound3":
+        return K().m3
+    if shape == "bound2":
+        return K().m2
+    if shape == "callobj3":
+        return K()
+    if shape == "classmethod2":
+        return K.c2
+    if shape == "static3":
+        return K.s3
+    if shape == "partial2":
+        def g(x, l, t):
+            return core("", l, False, True)
+        return functools.partial(g, 1)
+    raise ValueError(shape)
+
+
+SHAPE_HAS_LOC = {sh: not sh.endswith(("1", "0")) for sh in ACTION_SHAPES}
+
+
+def build_real(pp, t, log):
+    k = t[0]
+    if k == "lit":
+        return pp.Literal(t[1])
+    if k == "act":
+        e = build_real(pp, t[3], log)
+        if t[3][0] == "act":
+            e = pp.And([e])
+        fns = [make_logger(pp, a, log) for a in t[1]]
+        if fns:
+            e.add_parse_action(*fns, call_during_try=bool(t[2]))
+        return e
+    if k == "seq":
+        return pp.And([build_real(pp, t[1], log), build_real(pp, t[2], log)])
+    if k == "alt":
+        return pp.MatchFirst([build_real(pp, t[1], log), build_real(pp, t[2], log)])
+    if k == "or":
+        return pp.Or([build_real(pp, x, log) for x in t[1:]])
+    if k == "each":
+        return pp.Each([build_real(pp, x, log) for x in t[1:]])
+    if k == "skipto":
+        return pp.SkipTo(build_real(pp, t[1], log), include=bool(t[3]),
+                         fail_on=None if t[2] is None else build_real(pp, t[2], log))
+    if k == "many":
+        return pp.OneOrMore(build_real(pp, t[1], log), stop_on=None if t[2] is None else build_real(pp, t[2], log))
+    if k == "star":
+        return pp.ZeroOrMore(build_real(pp, t[1], log), stop_on=None if t[2] is None else build_real(pp, t[2], log))
+    if k == "opt":
+        return pp.Opt(build_real(pp, t[1], log))
+    if k == "fb":
+        return pp.FollowedBy(build_real(pp, t[1], log))
+    if k == "not":
+        return pp.NotAny(build_real(pp, t[1], log))
+    raise ValueError(k)
+
+
+def acts_of(t, out=None):
+    out = {} if out is None else out
+    if t[0] == "act":
+        for a in t[1]:
+            out[a["id"]] = a
+    for x in t[1:]:
+        if isinstance(x, (list, tuple)) and x and isinstance(x[0], str):
+            acts_of(x, out)
+    return out
+
+
+def run_gate_real(pp, t, s, da, via_parse_string=False):
+    """da=False: e.try_parse(s, 0) (the trial-matching entry point); da=True: e.try_parse(..., do_actions=True);
+    via_parse_string: e.parse_string(s) (oracle only: its And/preParse wrapper is outside the mini-model)"""
+    log = []
+    e = build_real(pp, t, log)
+    try:
+        pp.ParserElement.reset_cache()
+        if via_parse_string:
+            common.with_alarm(5, e.parse_string, s)
+            res = [Sym("ok"), -1]
+        else:
+            e.streamline()
+            end = common.with_alarm(5, e.try_parse, s, 0, raise_fatal=True, do_actions=bool(da))
+            res = [Sym("ok"), end]
+    except common.CaseTimeout:
+        res = Sym("hang")
+    except pp.ParseFatalException:
+        res = Sym("fatal")
+    except pp.ParseException:
+        res = Sym("fail")
+    except ValueError:
+        res = Sym("err")
+    except Exception as x:  # noqa
+        res = Sym("internal-" + type(x).__name__)
+    return sx([res, [[i, l] for i, l in log]]), log
+
+
+def project_gate(model_out, acts):
+    try:
+        res, tr = loads(model_out)
+    except Exception:
+        return model_out
+    return sx([res, [[i, (l if SHAPE_HAS_LOC[acts[i]["shape"]] else -1)] for i, l in tr]])
+
+
+class TreeGen:
+    def __init__(self, rng):
+        self.rng = rng
+        self.next_id = 0
+
+    def act_list(self, allow_raise=True):
+        rng = self.rng
+        out = []
+        for _ in range(1 if rng.random() < 0.8 else 2):
+            self.next_id += 1
+            r = rng.random()
+            kind = "keep" if (r < 0.7 or not allow_raise) else ("fail" if r < 0.85 else ("fatal" if r < 0.93 else "err"))
+            out.append({"id": self.next_id, "kind": kind, "shape": rng.choice(ACTION_SHAPES)})
+        return out
+
+    def leaf(self):
+        return ("lit", self.rng.choice("abc"))
+
+    def maybe_act(self, t, p=0.6):
+        rng = self.rng
+        if t[0] != "act" and rng.random() < p:
+            return ("act", self.act_list(), rng.random() < 0.15, t)
+        return t
+
+    def nonnull(self, d):
+        for _ in range(20):
+            t = self.tree(d)
+            if not nullable(t):
+                return t
+        return self.maybe_act(self.leaf())
+
+    def each_child(self, d):
+        for _ in range(20):
+            t = self.nonnull(d)
+            if strip_act(t)[0] not in ("opt", "star", "many"):
+                return t
+        return self.maybe_act(self.leaf())
+
+    def tree(self, d):
+        rng = self.rng
+        if d <= 0 or rng.random() < 0.18:
+            return self.maybe_act(self.leaf(), 0.7)
+        k = rng.choice(["seq", "seq", "alt", "or", "or", "each", "skipto", "skipto", "many", "many", "star", "opt",
+                        "fb", "not"])
+        if k in ("seq", "alt"):
+            # streamline() merges And(And(..)..)/MatchFirst(MatchFirst(..)..) when the inner one carries no action;
+            # the mini-model has no streamline, so a directly nested same-kind child always carries an action
+            kids = [self.tree(d - 1), self.tree(d - 1)]
+            kids = [self.maybe_act(c, 1.0) if c[0] == k else c for c in kids]
+            t = (k, *kids)
+        elif k == "or":
+            kids = []
+            for _ in range(rng.randint(2, 3)):
+                c = self.tree(d - 1)
+                if c[0] == "or":
+                    c = self.maybe_act(c, 1.0)
+                kids.append(c)
+            t = ("or", *kids)
+        elif k == "each":
+            kids = []
+            for _ in range(rng.randint(2, 3)):
+                c = self.each_child(d - 1)
+                if c[0] == "each":
+                    c = self.maybe_act(c, 1.0)
+                kids.append(c)
+            t = ("each", *kids)
+        elif k == "skipto":
+            t = ("skipto", self.nonnull(d - 1), self.tree(d - 1) if rng.random() < 0.4 else None, rng.random() < 0.5)
+        elif k in ("many", "star"):
+            t = (k, self.nonnull(d - 1), self.tree(d - 1) if rng.random() < 0.5 else None)
+        else:
+            t = (k, self.tree(d - 1))
+        return self.maybe_act(t, 0.35)
+
+
+def sentence(rng, t, budget=8):
+    """a string the tree is likely to accept"""
+    k = t[0]
+    if k == "lit":
+        return t[1]
+    if k == "act":
+        return sentence(rng, t[3], budget)
+    if k == "seq":
+        return sentence(rng, t[1]) + rng.choice(["", " "]) + sentence(rng, t[2])
+    if k in ("alt",):
+        return sentence(rng, rng.choice(t[1:3]))
+    if k == "or":
+        return sentence(rng, rng.choice(t[1:]))
+    if k == "each":
+        kids = list(t[1:])
+        rng.shuffle(kids)
+        return rng.choice(["", " "]).join(sentence(rng, x) for x in kids)
+    if k == "skipto":
+        return "".join(rng.choice("abc ") for _ in range(rng.randint(0, 3))) + sentence(rng, t[1])
+    if k in ("many", "star"):
+        n = rng.randint(0 if k == "star" else 1, 3)
+        out = rng.choice(["", " "]).join(sentence(rng, t[1]) for _ in range(n))
+        if t[2] is not None and rng.random() < 0.6:
+            out += rng.choice(["", " "]) + sentence(rng, t[2])
+        return out
+    if k == "opt":
+        return sentence(rng, t[1]) if rng.random() < 0.6 else ""
+    if k == "fb":
+        return sentence(rng, t[1])
+    return rng.choice(["", "a", "b", "c"])  # not
+
+
+def gen_gate_cases(ctx):
+    rng = ctx.subrng("gate")
+    cases = []
+    for i in range(ctx.budget(2500, 40000)):
+        g = TreeGen(rng)
+        t = g.tree(rng.choice([1, 2, 2, 3, 3, 4]))
+        if not acts_of(t):
+            t = ("act", g.act_list(), False, t) if t[0] != "act" else t
+        ins = set()
+        for _ in range(3):
+            s = sentence(rng, t)
+            if rng.random() < 0.5:
+                s = rng.choice(["", " ", "  "]) + s
+            if rng.random() < 0.3 and s:
+                j = rng.randrange(len(s))
+                s = s[:j] + rng.choice(["", "a", "b", "c", " "]) + s[j + 1:]
+            if rng.random() < 0.3:
+                s += rng.choice([" ", "a", "b", "c"])
+            ins.add(s[:10])
+        if rng.random() < 0.3:
+            ins.add("".join(rng.choice("abc ") for _ in range(rng.randint(0, 6))))
+        for s in sorted(ins):
+            for da in (True, False):
+                cases.append((t, s, da))
+    return cases
+
+
+def oracle_gate(t, s, da, log):
+    """fired_ids_firable on the real code: an action fires only where do_actions or its call_during_try allows"""
+    allowed = firable(t, da)
+    bad = [i for i, _ in log if i not in allowed]
+    if bad:
+        return (f"action id(s) {sorted(set(bad))} fired although they sit only in trial-matched positions "
+                f"(do_actions={da}) without call_during_try", "PP.ActionGate.fired_ids_firable / no_actions_when_trying")
+    return None
+
+
+def check_gate(ctx, pp):
+    cases = gen_gate_cases(ctx)
+    lines = [sx(Sym("gate"), tree_sexp(t), s, da) for t, s, da in cases]
+    mouts = ctx.driver.run_sharded(lines)
+    keep_c, keep_l, keep_m, impl, js = [], [], [], [], []
+    n_fail = 0
+    skipped = 0
+    for (t, s, da), ln, mo in zip(cases, lines, mouts):
+        if mo.startswith("(hang") or mo in ("bad-op", "bad-line"):
+            skipped += 1
+            if mo in ("bad-op", "bad-line"):
+                raise common.HarnessError(f"driver rejected {ln}")
+            continue
+        io, log = run_gate_real(pp, t, s, da)
+        acts = acts_of(t)
+        keep_m.append(project_gate(mo, acts))
+        keep_l.append(ln)
+        impl.append(io)
+        js.append({"tree": sx(tree_sexp(t)), "shapes": {str(i): a["shape"] for i, a in acts.items()}, "s": s, "da": da,
+                   "_tree": t})
+        bad = oracle_gate(t, s, da, log)
+        if not bad and da:
+            io2, log2 = run_gate_real(pp, t, s, True, via_parse_string=True)
+            bad = oracle_gate(t, s, True, log2)
+            if bad:
+                io = io2
+        if bad and n_fail < 3:
+            n_fail += 1
+            ctx.fail_input("action fired during trial matching", {"tree": t, "s": s, "da": da}, bad[0], io,
+                           theorem=bad[1], how="harness/props/c13.py run_gate_real(tree, s, da)")
+    for j in js:
+        j.pop("_tree")
+    ctx.notes["gate_skipped_model_hang"] = skipped
+    ctx.correspond("gate", js, keep_l, impl, model_outputs=keep_m,
+                   nontrivial=lambda c, o: "((" in o.split(" ", 1)[-1] or o.startswith("((ok"),
+                   outcome_of=lambda c, o: o.split(" ", 1)[0].lstrip("(").rstrip(")") + ("/da" if c["da"] else "/try"))
+
+
+# ================================================================================================
 # run
 # ================================================================================================
 def check_trim(ctx, pp, cfg):
@@ -597,6 +1017,7 @@ def run(ctx):
         "is visited only by the registered corpus witness")
     replay_witnesses(ctx, pp, cfg)
     check_trim(ctx, pp, cfg)
+    check_gate(ctx, pp)
     ctx.assumptions.append("C13: CPython traceback layout (binding failure has no callee frame) is assumed by the model "
                            "and validated only by the correspondence run")
 
